@@ -3004,6 +3004,16 @@ class SEVM:
         # If(idx == 0, Extract(255, 248, w), If(idx == 1, Extract(247, 240, w), ..., If(idx == 31, Extract(7, 0, w), 0)...))
         return ZeroExt(248, gen_nested_ite(0))
 
+    def sym_signextend(self, size: BitVecRef, w: BV) -> BitVecRef:
+        """generate symbolic SIGNEXTEND opcode result using 31 nested ite"""
+
+        # If(size == 0, signextend(0, w), If(size == 1, signextend(1, w), ..., w)...)
+        # note: sizes >= 31 leave the word unchanged
+        result = w.as_z3()
+        for curr in reversed(range(31)):
+            result = If(size == con(curr), w.signextend(curr).as_z3(), result)
+        return result
+
     def run_message(self, pre_ex: Exec, message: Message, path: Path) -> Iterator[Exec]:
         """
         Executes the given transaction from the given input state.
@@ -3605,9 +3615,13 @@ class SEVM:
                     state.push(self.arith(ex, opcode, state.popi(), state.popi()))
 
                 elif opcode == OP_SIGNEXTEND:
-                    w1 = ex.int_of(state.popi(), "symbolic SIGNEXTEND size")
+                    size = state.popi()
                     w2 = state.popi()
-                    state.push(w2.signextend(w1))
+                    try:
+                        w1 = ex.int_of(size, "symbolic SIGNEXTEND size")
+                        state.push(w2.signextend(w1))
+                    except NotConcreteError:
+                        state.push_any(self.sym_signextend(size.as_z3(), w2))
 
                 else:
                     # TODO: switch to InvalidOpcode when we have full opcode coverage
